@@ -76,7 +76,7 @@ def run(tier, seed):
                 a = rng.randrange(len(c))
                 b = rng.randrange(a + 1, len(c) + 1)
                 lookups.append(('src', c[a:b], None))
-            lookups += [('src', 'BD', None), ('src', 'ZZZZQQ', None), ('src', 'B' * 33, None)]
+            lookups += [('src', 'BD', None), ('src', 'ZZZZQQ', None), ('src', 'B' * 33, None), ('src', '0xBD', None), ('src', '0X12', None), ('src', '0x', None)]
             ex = path + '_exclude.txt'
             extext = '\n'.join(rng.sample(codes, min(len(codes), 2)) + ['BD00FFFF']) + '\n'
             open(ex, 'w').write(extext)
